@@ -15,10 +15,10 @@ from common import Report, pick_samples, log
 from farm import Farm, Case
 from genlib import gen_request, generate, DEFAULT_OPTS
 
-NAMED = ["Int", "Float", "String", "Boolean", "ID", "Date", "Role", "Range", "Filter", "Pick"]
+NAMED = ["Int", "Float", "String", "Boolean", "ID", "Date", "Role", "Range", "Filter", "Pick", "search_input"]
 LEAVES = {
     "Int": [1, 0, -2147483648, 2147483647], "Float": [1.5, 0.0, -1e300], "String": ["s", "", "é\"\n"],
-    "Boolean": [True, False], "ID": ["x", "", "007"], "Date": ["2020-01-01"],
+    "Boolean": [True, False], "ID": ["x", "", "007"], "Date": ["2020-01-01"], "date_time": ["t"],
 }
 
 
@@ -145,7 +145,7 @@ def run(tier):
             rep.violation("generation_failed", m["label"], r.get("msg"))
             m["case"] = None
             continue
-        m["case"] = farm.add(Case(r["tokens"], [("op", "Op")], prelude="pub type Date = String;", resp=False))
+        m["case"] = farm.add(Case(r["tokens"], [("op", "Op")], prelude="pub type Date = String; pub type date_time = String; pub type DateTime = String;", resp=False))
     farm.build()
     model = InputModel(schema)
     reqs, meta = [], []
